@@ -175,12 +175,21 @@ def _reference(A, model, conds):
     return first, stop
 
 
-def _run(cfg, R, conds=None, extra_solve=False):
+def _run(cfg, R, conds=None, extra_solve=False, prehistory=False):
     from vlib.precip_run import TrajectoryRun
     run = TrajectoryRun(cfg, R, [], max_steps=cfg['max_steps'])
     objs = []
     if conds is not None:
         def attach(model):
+            if prehistory:
+                # the model held other conditions before (opposite modes, one more than the real set), cleared through the
+                # public clearStoppingConditions(): the conditions in force are only the ones added afterwards
+                # (added after seeded change F12: mode entries of cleared conditions were applied to the new ones)
+                for c in list(conds) + [conds[0]]:
+                    model.addStoppingCondition(_make_condition(c['q'], c['ineq'], c['value'], c['phase'], c['element']),
+                                               'and' if c['mode'] == 'or' else 'or')
+                model.clearStoppingConditions()
+                R.observe('condition_sets_with_cleared_prehistory')
             for c in conds:
                 o = _make_condition(c['q'], c['ineq'], c['value'], c['phase'], c['element'])
                 objs.append(o)
@@ -227,7 +236,8 @@ def run_case(case, R):
         first, stop = _reference(A, mA, conds)
         mech = {'system': cfg['system'], 'iterator': cfg['iterator'],
                 'modes': '+'.join(sorted(set(c['mode'] for c in conds))), 'nconds': len(conds)}
-        runB, objs = _run(cfg, R, conds)
+        mech['cleared_prehistory'] = bool(s % 2 == 1)
+        runB, objs = _run(cfg, R, conds, prehistory=mech['cleared_prehistory'])
         if runB.error is not None:
             R.exception('c19.no_exception', runB.error, dict(mech, quantities='+'.join(sorted(set(c['q'] for c in conds)))), conditions=conds)
             continue
